@@ -54,6 +54,13 @@ def case_term(d) -> str:
         core.zlist(d["pre"]), core.zlist(d["sel"]), doms, "; ".join(attrs), core.zlist(d["tbl"]))
 
 
+def extra_term(d) -> str:
+    """(pcase, code) for the quantifier / operand streams"""
+    if d.get("quant") is not None:
+        return f"({case_term(d)}, {10 * d['quant'][0] + d['quant'][1]})"
+    return f"({case_term(d)}, {10 * d['operand'][0] + d['operand'][1]})"
+
+
 def ncase_term(d) -> str:
     i = d["inner"]
     return ("{| n_outer := %s; n_inner_params := %s; n_inner_defaults := [%s]; n_inner_pos := [%s]; n_inner_kw := [%s]; "
@@ -73,7 +80,7 @@ def _code(v) -> int:
     return OBJ0 + idx if isinstance(idx, int) and not isinstance(idx, bool) and type(v).__name__ == "Obj" else -5
 
 
-def pname(p: int) -> str:
+def _pname(p: int) -> str:
     return "self" if p == 0 else ("zz%d" % -p if p < 0 else f"p{p}")
 
 
@@ -106,11 +113,14 @@ def _run_impl(d) -> Any:
     def pyval(v):
         return objs[v - OBJ0] if v >= OBJ0 else v
 
-    def mk_callee(pred, params, defaults_list, tbl, log, cname, style="dataclass"):
+    def mk_callee(pred, params, defaults_list, tbl, log, cname, style="dataclass", first=None):
         """style (Predicate subclasses only): 'dataclass' = fields in parameter order; 'handinit' = hand-written __init__ whose
         parameter order is the REVERSE of the field order; 'kwbase' = the last parameter is a kw_only field inherited from a base
         predicate (first in dataclasses.fields, last and keyword-only in __init__)"""
         defaults = dict((p, v) for p, v in defaults_list)
+
+        def pname(p):       # a plain function's first parameter may be NAMED self / cls (first); it is still an ordinary parameter
+            return first if (first and p == 1 and not pred) else _pname(p)
 
         def body(vals):
             seen = [_code(v) for v in vals]
@@ -124,11 +134,34 @@ def _run_impl(d) -> Any:
             sig = ", ".join(pname(p) + (f"=_d[{p}]" if p in defaults else "") for p in params)
             src = (f"@dataclasses.dataclass(eq=False, init=False)\nclass {cname}(Predicate):\n"
                    + "".join(f"    {pname(p)}: Any\n" for p in reversed(params))
-                   + f"    def __init__(self, {sig}):\n" + "".join(f"        self.{pname(p)} = {pname(p)}\n" for p in params)
-                   + f"    def __call__(self):\n        return _body([{', '.join('self.' + pname(p) for p in params)}])\n")
+                   + f"    def __init__(self, {sig}):\n" + "".join(f"        self.v_{pname(p)} = {pname(p)}\n" for p in params)
+                   + f"    def __call__(self):\n        return _body([{', '.join('self.v_' + pname(p) for p in params)}])\n")
             ns = {"_body": body, "_d": {p: pyval(v) for p, v in defaults.items()}, "dataclasses": dataclasses, "Predicate": Predicate, "Any": Any}
             exec(src, ns)
             return ns[cname]
+        if pred and style in ("postinit", "cached", "initvar"):
+            # state DERIVED from the arguments: at construction (__post_init__, also from InitVar pseudo-fields) or lazily once
+            # (functools.cached_property); __call__ reads only the derived state
+            import functools
+            iv = style == "initvar"
+            fields = []
+            for p in params:
+                ty = dataclasses.InitVar[Any] if iv else Any
+                fields.append((pname(p), ty, dataclasses.field(default=pyval(defaults[p]))) if p in defaults else (pname(p), ty))
+            ns: Dict[str, Any] = {}
+            if style == "cached":
+                ns["vals"] = functools.cached_property(lambda self: [getattr(self, pname(p)) for p in params])
+                ns["vals"].__set_name__(None, "vals")
+                ns["__call__"] = lambda self: body(self.vals)
+            else:
+                if iv:
+                    exec("def __post_init__(self, " + ", ".join(pname(p) for p in params) + "):\n    self.derived = ["
+                         + ", ".join(pname(p) for p in params) + "]\n", ns)
+                else:
+                    ns["__post_init__"] = lambda self: setattr(self, "derived", [getattr(self, pname(p)) for p in params])
+                ns["__call__"] = lambda self: body(self.derived)
+            ns = {k: v for k, v in ns.items() if not k.startswith("__builtins__")}
+            return dataclasses.make_dataclass(cname, fields, bases=(Predicate,), eq=False, namespace=ns)
         if pred and style == "kwbase":
             last = params[-1]
             kwf = dataclasses.field(default=pyval(defaults[last]), kw_only=True) if last in defaults else dataclasses.field(kw_only=True)
@@ -153,7 +186,12 @@ def _run_impl(d) -> Any:
         return symbolic_function(ns[cname.lower()])
 
     log: List[List[int]] = []
-    callee = mk_callee(d["pred"], d["params"], d["defaults"], d["tbl"], log, "Pr" if d["pred"] else "Fn", d.get("style", "dataclass"))
+    first = d.get("first_name")
+
+    def pname(p):
+        return first if (first and p == 1 and not d["pred"]) else _pname(p)
+
+    callee = mk_callee(d["pred"], d["params"], d["defaults"], d["tbl"], log, "Pr" if d["pred"] else "Fn", d.get("style", "dataclass"), first)
 
     variables = {}
     for k, dom in d["doms"].items():
@@ -170,7 +208,7 @@ def _run_impl(d) -> Any:
     ilog: List[List[int]] = []
     if inner:
         icallee = mk_callee(inner["pred"], inner["params"], inner["defaults"], inner["tbl"], ilog, "Ip" if inner["pred"] else "Ig")
-        variables[NEST] = icallee(*[build(a) for a in inner["pos"]], **{pname(k): build(a) for k, a in inner["kw"]})
+        variables[NEST] = icallee(*[build(a) for a in inner["pos"]], **{_pname(k): build(a) for k, a in inner["kw"]})
         if not isinstance(variables[NEST], SymbolicExpression) or ilog:
             return [98, len(ilog)]
     pos = [build(a) for a in d["pos"]]
@@ -206,6 +244,25 @@ def _run_impl(d) -> Any:
         elif sorted(rows2) != sorted(rows) or err2 != err:
             err = -3            # the second evaluation of the same query object differs from the first
         return [1, err, [list(c) for c in log], rows]
+    if d.get("quant") is not None:
+        # the call below a quantifier over the variable u; the other variables are bound by earlier conjuncts
+        from krrood.entity_query_language.entity import for_all, exists, not_
+        u, viaexists = d["quant"]
+        qc = not_(exists(variables[u], c)) if viaexists else for_all(variables[u], c)
+        conds = [getattr(variables[x], "a") >= 0 for x in d["pre"]] + [qc]
+        sel = [variables[x] for x in d["sel"]]
+        q = an(entity(sel[0], *conds)) if len(sel) == 1 else an(set_of(sel, *conds))
+        rows, err = [], 0
+        try:
+            for r in q.evaluate():
+                rows.append([_code(r)] if len(sel) == 1 else [_code(r[v]) for v in sel])
+        except TypeError:
+            err = -1
+        return [1, at_construction if at_construction else err, rows]
+    if d.get("operand") is not None:
+        # the call as an operand of a comparison with a constant
+        op, k = d["operand"]
+        c = (c == k) if op == 0 else (c < k) if op == 1 else (c != k)
     if d.get("neg"):
         from krrood.entity_query_language.entity import not_
         c = not_(c)
@@ -358,18 +415,80 @@ def gen_cases(tier: str, seed: int) -> List[dict]:
 
 
 def styled(rng: core.Rng, d: dict) -> dict:
-    """Predicate subclasses whose __init__ order differs from their dataclass field order (see mk_callee)"""
-    if d["pred"] and len(d["params"]) >= 2:
-        r = rng.randint(0, 3)
-        if r == 2:
-            d["style"] = "handinit"
-        elif r == 3:
-            d["style"] = "kwbase"
-            n = len(d["params"])
-            if len(d["pos"]) == n:      # the inherited kw_only parameter cannot be given positionally
-                d["kw"] = d["kw"] + [[n, d["pos"][-1]]]
-                d["pos"] = d["pos"][:-1]
+    """Predicate subclasses whose __init__ order differs from their dataclass field order, or whose __call__ reads state derived
+    from the arguments (see mk_callee); plain functions whose first parameter is NAMED self / cls"""
+    if not d["pred"]:
+        r = rng.randint(0, 9)
+        if r >= 7:
+            d["first_name"] = "self" if r < 9 else "cls"
+        return d
+    r = rng.randint(0, 9)
+    n = len(d["params"])
+    if r == 4:
+        d["style"] = "handinit"
+    elif r == 5 and n >= 2:
+        d["style"] = "kwbase"
+        if len(d["pos"]) == n:      # the inherited kw_only parameter cannot be given positionally
+            d["kw"] = d["kw"] + [[n, d["pos"][-1]]]
+            d["pos"] = d["pos"][:-1]
+    elif r == 6:
+        d["style"] = "postinit"
+    elif r == 7:
+        d["style"] = "cached"
+    elif r == 8:
+        d["style"] = "initvar"
     return d
+
+
+def gen_quant(tier: str, seed: int) -> List[dict]:
+    """and_(<x bound>, for_all(u, f(..x.., ..u..))) and ... not_(exists(u, f(...))): a call below a quantifier.  Outside the model:
+    implementation vs Spec (the call must hold for EVERY value of u)."""
+    rng = core.Rng(seed).fork(31)
+    out = []
+    want = 120 if tier == "quick" else 600
+    tries = 0
+    while len(out) < want and tries < 40 * want:
+        tries += 1
+        n = rng.randint(2, 3)
+        ndef = rng.randint(0, n)
+        k, kws = rng.choice(list(call_shapes(n, ndef)))
+        written = k + len(kws)
+        if written < 2:
+            continue
+        symmask = rng.randint(1, (1 << written) - 1)
+        if bin(symmask).count("1") != 2:
+            continue
+        d = styled(rng, fill(rng, rng.chance(0.5), n, ndef, k, list(kws), symmask, "distinct"))
+        vs = sorted({v for a in d["pos"] + [a for _, a in d["kw"]] for v in arg_vars(a)})
+        if vs != [1, 2]:
+            continue
+        _, doms = gen_world(rng, 2)
+        doms = {x: [i for i in dom if i < len(d["objs"])] or [0] for x, dom in doms.items()}
+        d["doms"] = {str(v): d["doms"].get(str(v), doms[str(v)]) for v in vs}
+        d["pre"], d["sel"], d["quant"] = [1], [1], [2, int(rng.chance(0.4))]
+        out.append(d)
+    return out
+
+
+def gen_operand(tier: str, seed: int) -> List[dict]:
+    """f(...) == k, f(...) < k, f(...) != k: the call is an operand of a comparison; results 0 / 1 / 2 (0 falsy).  Outside the model:
+    implementation vs Spec."""
+    rng = core.Rng(seed).fork(32)
+    out = []
+    for rep_ in range(1 if tier == "quick" else 4):
+        for pred in (False, True):
+            for n in range(1, 4):
+                for ndef in range(0, n + 1):
+                    for k, kws in call_shapes(n, ndef):
+                        written = k + len(kws)
+                        if written == 0:
+                            continue
+                        symmask = rng.randint(1, (1 << written) - 1)
+                        d = styled(rng, fill(rng, pred, n, ndef, k, list(kws), symmask, "shared" if rng.chance(0.4) else "distinct"))
+                        d["tbl"] = [rng.choice([0, 0, 1, 2]) for _ in d["tbl"]]
+                        d["operand"] = [rng.randint(0, 2), rng.randint(0, 2)]
+                        out.append(d)
+    return out
 
 
 def gen_selected(tier: str, seed: int) -> List[dict]:
@@ -514,7 +633,13 @@ def replay_finding(rep: Report, f: core.Finding, model_ok: bool):
     entries = w["cases"] if "cases" in w else [w]
     impls = [run_impl(e["case"]) for e in entries]
     header, fn = (HEADER, "case_code") if model_ok else (HEADER_SPEC, "case_code_spec")
-    codes = core.coq_codes(PROP, header, "pcase", fn, [(case_term(e["case"]), core.sx(i)) for e, i in zip(entries, impls)], tag="kf")
+    d0 = entries[0]["case"]
+    if d0.get("quant") is not None or d0.get("operand") is not None:
+        codes = core.coq_codes(PROP, HEADER_SPEC, "(pcase * Z)%type", "case_code_quant" if d0.get("quant") is not None else "case_code_operand",
+                               [(extra_term(e["case"]), core.sx(i)) for e, i in zip(entries, impls)], tag="kf")
+        model_ok = True      # the third outcome is the recorded defect's reading, available without the model
+    else:
+        codes = core.coq_codes(PROP, header, "pcase", fn, [(case_term(e["case"]), core.sx(i)) for e, i in zip(entries, impls)], tag="kf")
     still, gone = 0, 0
     for e, impl, code in zip(entries, impls, codes):
         d = e["case"]
@@ -573,8 +698,9 @@ def run(tier: str, seed: int, replay=None) -> int:
                 "worlds, attribute chains, defaults and the body's truth table drawn from VERIF_SEED; plus a malformed stream (impl vs model only) and a "
                 "nested-call stream f(g(x)), Pred(h(x), y), optionally under not_, inner results 0/1/2 with 0 falsy (outside the model: impl vs Spec = concrete composition) "
                 "and a selected-call stream an(set_of([x, y, f(x, y)], ...)) evaluated twice, falsy results included (outside the model: impl vs Spec). "
-                "Predicate subclasses of arity >= 2 are dataclasses in parameter order (1/2), classes with a hand-written __init__ in the reverse of the field order (1/4) "
-                "or subclasses of a base predicate with a kw_only field (1/4). "
+                "Predicate subclasses: classes with a hand-written __init__ in the reverse of the field order that stores under other names, "
+                "or subclasses of a base predicate with a kw_only field, or predicates whose __call__ reads state derived in __post_init__ / from InitVars / by a cached_property "
+                "(1/10 each, the rest plain dataclasses); 30% of the plain functions name their first parameter self / cls. "
                 "distinct = distinct case description; non-trivial = concrete call, or symbolic with >= 2 different calls of which at least one is true and one false")
     ok_spec, log = core.coq_make(["Base/Sx.vo", "Eql/PredSpec.vo", "Eql/PredCase.vo"])
     rep.oblige("build:spec", ok_spec, "" if ok_spec else core.first_error(log))
@@ -607,10 +733,12 @@ def run(tier: str, seed: int, replay=None) -> int:
             for p in sorted(cdir.glob("*.json")):
                 if not p.name.startswith("kf_"):
                     descrs.append(json.loads(p.read_text())["case"])
-        descrs += gen_cases(tier, seed) + gen_malformed(tier, seed) + gen_nested(tier, seed) + gen_selected(tier, seed)
+        descrs += gen_cases(tier, seed) + gen_malformed(tier, seed) + gen_nested(tier, seed) + gen_selected(tier, seed) + gen_quant(tier, seed) + gen_operand(tier, seed)
     nested = [d for d in descrs if d.get("inner")]
     selected = [d for d in descrs if d.get("select_call")]
-    descrs = [d for d in descrs if not d.get("inner") and not d.get("select_call")]
+    quants = [d for d in descrs if d.get("quant") is not None]
+    operands = [d for d in descrs if d.get("operand") is not None]
+    descrs = [d for d in descrs if not d.get("inner") and not d.get("select_call") and d.get("quant") is None and d.get("operand") is None]
     cases = [make_case(d) for d in descrs]
     codes = core.coq_codes(PROP, header, "pcase", fn, [(c.term, core.sx(c.impl)) for c in cases], chunk=250)
 
@@ -697,7 +825,34 @@ def run(tier: str, seed: int, replay=None) -> int:
                        "python": c.snippet, "explanation": "selected call result (class 4, outside the model): an(set_of([vars..., f(...)], conjuncts binding the "
                        "variables)) evaluated twice; outcome [1, err (-3: second evaluation differs from the first), calls (as a set), rows = variables + "
                        "[plain result]]; Spec = one row per candidate binding. " + EXPLAIN})
-    dist["predicate_styles"] = {st: sum(1 for c in cases if c.descr.get("style", "dataclass") == st and c.descr["pred"]) for st in ("dataclass", "handinit", "kwbase")}
+    # the call below a quantifier / as a comparison operand: outside the model; implementation vs Spec, with the faithful reading of
+    # the listed defect as the third outcome (code 2 = an instance of that finding, exactly as recorded)
+    open_classes = {f.cls for f in core.load_findings(PROP) if f.kind == "open"}
+    for label, ds, ctype, fn, kfclass, tagn in (("quant", quants, "(pcase * Z)%type", "case_code_quant", "K_call_below_quantifier", "quant"),
+                                                ("operand", operands, "(pcase * Z)%type", "case_code_operand", "K_falsy_call_as_operand", "opnd")):
+        xs = [Case(term=extra_term(d), impl=run_impl(d), descr=d, snippet=snippet(d), key=json.dumps(d, sort_keys=True)) for d in ds]
+        xcodes = core.coq_codes(PROP, HEADER_SPEC, ctype, fn, [(c.term, core.sx(c.impl)) for c in xs], chunk=250, tag=tagn) if xs else []
+        dist[label] = len(xs)
+        dist[label + "_instances_of_" + kfclass] = 0
+        xbad = []
+        for c, code in zip(xs, xcodes):
+            rep.count(c.key, c.impl[0] == 1 and bool(c.impl[-1]))
+            if code == 0 or code == 1:
+                continue
+            if code == 2 and kfclass in open_classes:
+                dist[label + "_instances_of_" + kfclass] += 1
+                continue
+            xbad.append((c, code))
+        xbad.sort(key=lambda cc: len(cc[0].key))
+        for c, code in xbad[:3]:
+            rep.violation({"kind": "counterexample", "case": c.descr, "impl": c.impl, "model": None, "code": (500 if label == "quant" else 600) + code,
+                           "python": c.snippet,
+                           "explanation": ("call below a quantifier (class 5): case['quant'] = [u, via not_(exists)]; outcome [1, err, rows]; Spec = the call holds "
+                                           "for EVERY value of u. " if label == "quant" else
+                                           "call as comparison operand (class 6): case['operand'] = [op (0 ==, 1 <, 2 !=), k]; outcome [1, err, calls, rows]; Spec = "
+                                           "the comparison holds for the call's plain result. ") + "code k: 2 = the listed defect's reading, 3 = neither. " + EXPLAIN})
+    dist["predicate_styles"] = {st: sum(1 for c in cases if c.descr.get("style", "dataclass") == st and c.descr["pred"]) for st in ("dataclass", "handinit", "kwbase", "postinit", "cached", "initvar")}
+    dist["function_first_parameter_named_self_or_cls"] = sum(1 for c in cases if c.descr.get("first_name"))
     rep.extra["distribution"] = dist
     rep.extra["exhaustive_note"] = "call shapes exhaustive up to the stated arity; worlds and expressions sampled"
     step = max(1, len(cases) // 6)
